@@ -35,3 +35,30 @@ Theorem C05_create_by_query_crash_refuted :
   r_db (snd (exec_op o st)) <> r_db st /\ r_db (snd (exec_op o st)) <> snd (step ex_db_src o).
 Proof. exact create_by_query_third_tx_not_atomic_refuted. Qed.
 Print Assumptions C05_create_by_query_crash_refuted.
+
+(* ---- history level, every operation of the API, every call position (Proofs/CrashInvProofs.v): a store failure (C04) or a crash (C05) while store call k of the next operation is in flight — the same execution in the model: whatever the in-flight transaction has not committed is discarded — leaves a store that still refines a well-formed abstract database (documents, index entries, counts and catalog mutually consistent, no rebuild); for single-transaction operations it is exactly the state before or after; the history can go on after reopening; a fault that fired is always reported ---- *)
+From Clover Require Import HistoryProofs CompositeSpec CompositeProofs CrashInvProofs.
+Theorem C05_crash_after_any_history_keeps_invariant : forall ops o k,
+  hist_dom_all empty_db (ops ++ [o]) ->
+  exists db, wf_db db /\
+    R db (durable (r_db (snd (exec_op o (fresh_rstate (snd (run_ops empty_db ops)) (Some k)))))).
+Proof. exact fault_after_history_keeps_invariant. Qed.
+Print Assumptions C05_crash_after_any_history_keeps_invariant.
+
+Theorem C05_single_tx_before_or_after : forall db h o k,
+  wf_db db -> Rdb' db h -> (closed h = false -> op_dom_all db o) -> single_tx o = true ->
+  r_db (snd (exec_op o (fresh_rstate h (Some k)))) = h \/
+  r_db (snd (exec_op o (fresh_rstate h (Some k)))) = snd (step h o).
+Proof. exact fault_single_tx_before_or_after. Qed.
+Print Assumptions C05_single_tx_before_or_after.
+
+Theorem C05_history_continues_after_crash : forall ops o k ops',
+  hist_dom_all empty_db (ops ++ [o]) ->
+  let h' := r_db (snd (exec_op o (fresh_rstate (snd (run_ops empty_db ops)) (Some k)))) in
+  hist_dom_all (snd (step h' OReopen)) ops' ->
+  exists db, wf_db db /\ R db (durable (snd (run_ops (snd (step h' OReopen)) ops'))).
+Proof. exact history_continues_after_fault. Qed.
+Print Assumptions C05_history_continues_after_crash.
+
+(* the table of an import interrupted at each of its 12 store calls (before / empty new collection / complete) is the
+   Example x_fault_table in Proofs/CrashInvProofs.v *)
